@@ -316,6 +316,14 @@ Proof.
   - pose proof (proj1 (noll_monotone n' m' n m V' V) ltac:(lia)). lia.
 Qed.
 
+Lemma sq_window q q' v : 0 <= q -> 0 <= q' ->
+  q * q < v <= (q + 1) * (q + 1) -> q' * q' < v <= (q' + 1) * (q' + 1) -> q = q'.
+Proof.
+  intros Hq Hq' W W'. destruct (Z.lt_trichotomy q q') as [L|[E|G]]; [exfalso|assumption|exfalso].
+  - assert ((q + 1) * (q + 1) <= q' * q') by (apply Z.mul_le_mono_nonneg; lia). lia.
+  - assert ((q' + 1) * (q' + 1) <= q * q) by (apply Z.mul_le_mono_nonneg; lia). lia.
+Qed.
+
 Theorem fringe_j_injective n m n' m' : zvalid n m -> zvalid n' m' -> fringe_j n m = fringe_j n' m' -> (n, m) = (n', m').
 Proof.
   intros [Hm [k Hk]] [Hm' [k' Hk']] H. unfold fringe_j in H.
@@ -324,14 +332,21 @@ Proof.
   assert (exists q', n' + Z.abs m' = 2 * q') as [q' Hq']
     by (destruct (Z.abs_spec m') as [[_ ->]|[_ ->]]; [exists (n' - k')|exists k']; lia).
   rewrite Hq, Hq', !(Z.mul_comm 2), !Z.div_mul in H by lia.
-  assert (Z.abs m <= q) by lia. assert (Z.abs m' <= q') by lia.
-  assert (0 <= Z.abs m) by lia. assert (0 <= Z.abs m') by lia.
-  destruct (m <? 0) eqn:E; destruct (m' <? 0) eqn:E';
-    try apply Z.ltb_lt in E; try apply Z.ltb_lt in E'; try apply Z.ltb_ge in E; try apply Z.ltb_ge in E'.
-  - assert (q = q') by nia. subst q'. assert (Z.abs m = Z.abs m') by nia. f_equal; lia.
-  - assert (1 <= Z.abs m) by lia. assert (q = q') by nia. subst q'. exfalso. nia.
-  - assert (1 <= Z.abs m') by lia. assert (q = q') by nia. subst q'. exfalso. nia.
-  - assert (q = q') by nia. subst q'. assert (Z.abs m = Z.abs m') by nia. f_equal; lia.
+  rewrite !Z.pow_2_r in H.
+  assert (A : 0 <= Z.abs m <= q) by lia. assert (A' : 0 <= Z.abs m' <= q') by lia.
+  set (s := if m <? 0 then 1 else 0) in *. set (s' := if m' <? 0 then 1 else 0) in *.
+  assert (S : 0 <= s <= 1 /\ (s = 1 -> 1 <= Z.abs m) /\ (s = 1 <-> m < 0)).
+  { subst s. destruct (Z.ltb_spec m 0); lia. }
+  assert (S' : 0 <= s' <= 1 /\ (s' = 1 -> 1 <= Z.abs m') /\ (s' = 1 <-> m' < 0)).
+  { subst s'. destruct (Z.ltb_spec m' 0); lia. }
+  assert (E1 : (1 + q) * (1 + q) = q * q + 2 * q + 1) by ring.
+  assert (E2 : (1 + q') * (1 + q') = q' * q' + 2 * q' + 1) by ring.
+  assert (E3 : (q + 1) * (q + 1) = q * q + 2 * q + 1) by ring.
+  assert (E4 : (q' + 1) * (q' + 1) = q' * q' + 2 * q' + 1) by ring.
+  assert (q = q').
+  { apply (sq_window q q' ((1 + q) * (1 + q) - 2 * Z.abs m + s)); try lia. }
+  subst q'. assert (Z.abs m = Z.abs m' /\ s = s') as [Ea Es] by lia.
+  f_equal; lia.
 Qed.
 
 (** the hypotheses are satisfiable *)
